@@ -1,7 +1,7 @@
 // U-sched: the scheduler core under contract (C01-C06, C08, C15, C16, C19 function-level parts).
 //@@ unit U-sched
 //@@ default props=C02 rewrites=R1,R2,R3,R5,R13 ghost="Tracked(h): Tracked<&mut Heap>" ghostarg="Tracked(h)" loopinv="h.wf(), fwd(*old(h), *h)," bodyprelude="broadcast use {lemma_fwd_refl, lemma_fwd_trans, axiom_flag_as_bool};" attr="#[verifier::exec_allows_no_decreases_clause] #[verifier::loop_isolation(false)]"
-//@@ heapmethods state set_state set_err err children children_in next parent siblings task set_task sched_task emit_task_event emit_proc_event eval init run review error exec is_ready emit_task emit_error create_task push root set_data flag set_flag prev start_time update_data outputs is_event_processed prepare is_auto_complete abort_task back_task undo_task redo_task action set_action get_var get_var_or_default dispatch_act backs backs_step create_context set_message_with update arm_cancel do_action dispatch time_millis hooks_snapshot flag_or_false run_hooks_by run_hooks find
+//@@ heapmethods state set_state set_err err children children_in next parent siblings task set_task sched_task emit_task_event emit_proc_event eval init run review error exec is_ready emit_task emit_error create_task push root set_data flag set_flag prev start_time update_data outputs is_event_processed prepare is_auto_complete abort_task back_task undo_task redo_task action set_action get_var get_var_or_default dispatch_act backs backs_step create_context set_message_with update arm_cancel do_action dispatch time_millis hooks_snapshot flag_or_false run_hooks_by run_hooks find run_hooks_timeout is_emit_disabled create_message emit_message upsert
 use vstd::prelude::*;
 use std::sync::Arc;
 verus! {
@@ -181,7 +181,7 @@ impl Context {
     #[verifier::external_body]
     pub fn dispatch_act(&self, act: &Act, is_hook_event: bool, Tracked(h): Tracked<&mut Heap>) -> (r: Result<()>)
         requires old(h).wf()
-        ensures final(h).wf(), fwd(*old(h), *final(h)), final(h).cur == old(h).cur, r is Ok,
+        ensures final(h).wf(), fwd(*old(h), *final(h)), final(h).cur == old(h).cur, r is Ok, final(h).proc_state == old(h).proc_state,
                 forall|x: Tid| #[trigger] old(h).has(x) ==> final(h).tasks[x] == old(h).tasks[x],
     { unimplemented!() }
 }
@@ -247,7 +247,7 @@ impl Act {
             //# G-dispatch-fwd
             final(h).wf() && fwd(*old(h), *final(h)) && final(h).cur == old(h).cur && ret is Ok,
             //# G-dispatch-existing-unchanged
-            forall|x: Tid| #[trigger] old(h).has(x) ==> final(h).tasks[x] == old(h).tasks[x],
+            final(h).proc_state == old(h).proc_state && forall|x: Tid| #[trigger] old(h).has(x) ==> final(h).tasks[x] == old(h).tasks[x],
 //@@ end
 }
 impl Vars {
@@ -256,12 +256,6 @@ impl Vars {
     pub fn set_any<K: KeyLike, V>(&mut self, key: K, value: V) ensures final(self)@.dom() == old(self)@.dom().insert(key.k()) { unimplemented!() }
 }
 
-// what a batch may assume about the task it runs on (kept by the hook registration in Step::init / Act::init):
-// catches hang on steps and acts only (never on the root task)
-pub open spec fn batch_pre(b: StatementBatch, h: Heap) -> bool {
-    &&& (b is Catch ==> h.tasks[h.cur].node.s_kind() == NodeKind::Step || h.tasks[h.cur].node.s_kind() == NodeKind::Act)
-    &&& (b is Timeout ==> parse_limit(b->Timeout_0.on@) is Ok ==> limit_small(parse_limit(b->Timeout_0.on@)->Ok_0))
-}
 pub open spec fn timeout_flag(t: TaskAbs, on: Seq<char>) -> bool {
     t.flags.dom().contains(consts::IS_TIMEOUT_PROCESSED_PREFIX@ + on) && t.flags[consts::IS_TIMEOUT_PROCESSED_PREFIX@ + on]
 }
@@ -272,10 +266,12 @@ impl StatementBatch {
 //@@ rw R7 `& err . ecode == c . on . as_ref ( ) . unwrap ( )` => `str_eq(&err.ecode, c.on.as_ref().unwrap())`
 //@@ rw R7 `format ! ( "{}{}" , consts :: IS_TIMEOUT_PROCESSED_PREFIX , t . on )` => `timeout_key(&t.on)`
 //@@ spec
-        requires old(h).wf(), batch_pre(*self, *old(h))
+        requires old(h).wf()
         ensures
             //# S-batch-fwd
             final(h).wf() && fwd(*old(h), *final(h)),
+            //# G5-statement-only-adds-a-task
+            self is Statement ==> final(h).cur == old(h).cur && final(h).proc_state == old(h).proc_state && forall|x: Tid| #[trigger] old(h).has(x) ==> final(h).tasks[x] == old(h).tasks[x],
             //# E3-no-error-no-effect
             self is Catch && old(h).tasks[old(h).cur].err is None ==> *final(h) == *old(h),
             //# E3-catch-runs-once
@@ -311,6 +307,114 @@ impl StatementBatch {
                 && h.tasks[h.cur] == (TaskAbs { flags: h.tasks[h.cur].flags, ..old(h).tasks[old(h).cur] }) && timeout_flag(h.tasks[h.cur], t.on@),
 //@@ end
 }
+
+impl Task {
+//@@ extract file=acts/src/scheduler/process/task.rs in="impl Task" item="fn run_hooks_by" name=Task::run_hooks_by props=C06,C16,C19
+//@@ rw R11 `self . hooks . read ( ) . unwrap ( )` => `self.hooks_snapshot()`
+//@@ rw R7 `let default = Vec :: new ( ) ;` => ``
+//@@ rw R7 `hooks . get ( & key ) . unwrap_or ( & default )` => `hooks.list(&key)`
+//@@ spec
+        requires old(h).wf(), wf_task(*old(h), *self)
+        ensures
+            //# G5-hooks-by-fwd
+            final(h).wf() && fwd(*old(h), *final(h)),
+            //# G5-no-hooks-no-effect
+            (!hooks_of(*old(h), self.id@).dom().contains(key) || hooks_of(*old(h), self.id@)[key].len() == 0) ==> *final(h) == *old(h) && ret is Ok,
+            //# G5-plain-lists-only-add-tasks
+            !(key is ErrorCatch) && !(key is Timeout) ==> final(h).cur == old(h).cur && final(h).proc_state == old(h).proc_state
+                && forall|x: Tid| #[trigger] old(h).has(x) ==> final(h).tasks[x] == old(h).tasks[x],
+//@@ loop 1
+        invariant
+            //# untouched-before-the-first-batch
+            __i1 == 0 ==> *h == *old(h),
+            //# list-is-the-snapshot
+            __v1@ == (if hooks_of(*old(h), self.id@).dom().contains(key) { hooks_of(*old(h), self.id@)[key] } else { Seq::<StatementBatch>::empty() }) && hooks_ok(*old(h)),
+            //# plain-lists-only-add-tasks
+            !(key is ErrorCatch) && !(key is Timeout) ==> h.cur == old(h).cur && h.proc_state == old(h).proc_state
+                && forall|x: Tid| #[trigger] old(h).has(x) ==> h.tasks[x] == old(h).tasks[x],
+//@@ end
+//@@ extract file=acts/src/scheduler/process/task.rs in="impl Task" item="fn run_hooks" name=Task::run_hooks props=C16,C06,C08
+//@@ rw R6 `$T:chain . with_data ( | data | data . get :: < bool > ( $K ) ) . unwrap_or_default ( )` => `$T.flag_or_false($K)`
+//@@ spec
+        requires old(h).wf(), wf_task(*old(h), *self)
+        ensures
+            //# G5-run-hooks-fwd
+            final(h).wf() && fwd(*old(h), *final(h)),
+            //# G5-hook-acts-fire-nothing
+            (old(h).tasks[old(h).cur].flags.dom().contains(consts::IS_EVENT_PROCESSED@) && old(h).tasks[old(h).cur].flags[consts::IS_EVENT_PROCESSED@]) ==> *final(h) == *old(h),
+            //# G5-none-and-running-fire-nothing
+            (old(h).st(self.id@) is None || old(h).st(self.id@) is Running) ==> *final(h) == *old(h),
+            //# G5-only-an-error-event-touches-existing-tasks
+            !(old(h).st(self.id@) is Error) ==> final(h).proc_state == old(h).proc_state && forall|x: Tid| #[trigger] old(h).has(x) ==> final(h).tasks[x] == old(h).tasks[x],
+//@@ proof at=beforeloop1
+        let ghost h1 = *h;
+//@@ loop 1
+        invariant
+            //# anc-ok
+            parent is Some ==> wf_task(*h, *parent->Some_0),
+            //# still-untouched
+            h.cur == old(h).cur && h.proc_state == old(h).proc_state && forall|x: Tid| #[trigger] old(h).has(x) ==> h.tasks[x] == old(h).tasks[x],
+//@@ proof at=beforeloop2
+        let ghost h2 = *h;
+//@@ loop 2
+        invariant
+            //# anc-ok
+            parent is Some ==> wf_task(*h, *parent->Some_0),
+            //# still-untouched
+            h.cur == old(h).cur && h.proc_state == old(h).proc_state && forall|x: Tid| #[trigger] old(h).has(x) ==> h.tasks[x] == old(h).tasks[x],
+//@@ end
+//@@ extract file=acts/src/scheduler/process/task.rs in="impl Task" item="fn run_hooks_timeout" name=Task::run_hooks_timeout props=C19
+//@@ spec
+        requires old(h).wf(), wf_task(*old(h), *self)
+        ensures
+            //# W3-timeout-hooks-fwd
+            final(h).wf() && fwd(*old(h), *final(h)),
+//@@ end
+}
+
+// ---- the task-event handler registered in Runtime::initialize (lifted closure, R9).  It runs on its OWN Context
+//      (Context::new inside create_context), so for the caller of emit_task_event the current task is untouched.
+pub open spec fn handler_summary(a: Heap, b: Heap, t: Tid) -> bool {
+    &&& fwd(a, b) && b.wf()
+    &&& (!(a.st(t) is Error) ==> b.proc_state == a.proc_state && forall|x: Tid| #[trigger] a.has(x) ==> b.tasks[x] == a.tasks[x])
+}
+// the stub contract of Scheduler::emit_task_event follows from the handler's proved contract
+pub proof fn lemma_emit_summary(a: Heap, b1: Heap, t: Tid)
+    requires a.wf(), a.has(t), handler_summary(Heap { task_events: a.task_events.push((t, a.st(t))), ..a }, b1, t)
+    ensures emit_summary(a, Heap { cur: a.cur, ..b1 }, t)
+{
+    let a1 = Heap { task_events: a.task_events.push((t, a.st(t))), ..a };
+    let b = Heap { cur: a.cur, ..b1 };
+    assert forall|x: Tid| #[trigger] a.has(x) implies b.has(x) && task_fwd(a.tasks[x], b.tasks[x]) by { assert(a1.has(x)); }
+    assert forall|x: Tid| #[trigger] b.has(x) && !a.has(x) implies b.tasks[x].revived <= 1 by { assert(b1.has(x) && !a1.has(x)); }
+    assert(a.has(a.cur)); assert(a1.has(a.cur));
+    lemma_meta(b1, b);
+    assert(a1.task_events.is_prefix_of(b1.task_events));
+    assert(a1.task_events[a.task_events.len() as int] == (t, a.st(t)));
+    assert(a.task_events.is_prefix_of(b.task_events)) by { assert(a.task_events.is_prefix_of(a1.task_events)); }
+    if !(a.st(t) is Error) { assert forall|x: Tid| #[trigger] a.has(x) implies b.tasks[x] == a.tasks[x] by { assert(a1.has(x)); } }
+}
+//@@ extract file=acts/src/scheduler/runtime.rs in="impl Runtime" item="fn initialize" closure=params:e name=Runtime::on_task::handler props=C08,C11,C02 sig="pub fn on_task_handler(cache: Arc<CacheH>, rt: Arc<Runtime>, e: &Arc<Task>)"
+//@@ rw R10 `$X:chain . unwrap_or_else ( | err | error ! ( $A:args ) )` => `ignore_err($X)`
+//@@ spec
+        requires old(h).wf(), wf_task(*old(h), **e)
+        ensures
+            //# M1-handler-summary
+            handler_summary(*old(h), *final(h), e.id@),
+            //# M1-message-iff-allowed
+            msg_allowed(*final(h), e.id@) ==> final(h).messages.len() > 0 && final(h).messages.last() == (e.id@, msg_state_of(final(h).st(e.id@))),
+            //# S2-task-row-written-first
+            final(h).upserts.len() > old(h).upserts.len() && final(h).upserts[old(h).upserts.len() as int] == e.id@,
+//@@ proof after=ignore_err#1
+        let ghost h1 = *h;
+//@@ proof at=end
+        proof {
+            let n = old(h).upserts.len() as int;
+            assert(h1.upserts.is_prefix_of(h.upserts));
+            assert(h.upserts.subrange(0, h1.upserts.len() as int) =~= h1.upserts);
+            assert(h.upserts.subrange(0, h1.upserts.len() as int)[n] == h.upserts[n]);
+        }
+//@@ end
 
 // ---- admission (oracle: property C05): the action names an existing task, the task kind fits the action
 //      (steps for push, acts for everything else) and every declared output is supplied
